@@ -208,13 +208,20 @@ class WSGIContainer:
         .. versionchanged:: 6.3
            No longer a static method.
         """
-        hostport = request.host.split(":")
-        if len(hostport) == 2:
-            host = hostport[0]
-            port = int(hostport[1])
-        else:
-            host = request.host
-            port = 443 if request.protocol == "https" else 80
+        default_port = 443 if request.protocol == "https" else 80
+        host, sep, port_str = request.host.rpartition(":")
+        if (
+            not sep
+            or not (port_str == "" or (port_str.isascii() and port_str.isdigit()))
+            or (":" in host and not host.endswith("]"))
+        ):
+            # No port: a plain name or a bare IPv6 literal such as "[::1]".
+            host, port_str = request.host, ""
+        try:
+            port = int(port_str) if port_str else default_port
+        except ValueError:
+            # More digits than int() accepts: not a usable port number.
+            port = default_port
         environ = {
             "REQUEST_METHOD": request.method,
             "SCRIPT_NAME": "",
